@@ -52,12 +52,13 @@ def make_driver():
         c, p = shlex.quote(f"{planroot}/{key}.count"), shlex.quote(f"{planroot}/{key}.plan")
         return (
             f"n=$(cat {c} 2>/dev/null || echo 0); plan=$(cat {p}); "
-            f"echo \"S {key} {arg} $n\"; "
+            f"fp=$(cat param.txt); "
+            f"echo \"S {key} {arg}/$fp/$VF_EARG $n\"; "
             f"case \"$plan\" in "
-            f"ok|prepfail|prepfail1) echo \"R {key} {arg} $n\" > result.txt ;; "
+            f"ok|prepfail|prepfail1) echo \"R {key} {arg}/$fp/$VF_EARG $n\" > result.txt ;; "
             f"fail) exit 3 ;; "
             f"nofile) : ;; "
-            f"okat*) k=${{plan#okat}}; if [ \"$n\" -ge \"$k\" ]; then echo \"R {key} {arg} $n\" > result.txt; else exit 4; fi ;; "
+            f"okat*) k=${{plan#okat}}; if [ \"$n\" -ge \"$k\" ]; then echo \"R {key} {arg}/$fp/$VF_EARG $n\" > result.txt; else exit 4; fi ;; "
             f"esac"
         )
 
@@ -73,12 +74,13 @@ def make_driver():
 
         # post-processor that needs the returned file
         @Job(return_files=("result.txt",)).prep
-        def calc(self, M, planroot=None, arg=0, broken=()):
+        def calc(self, M, planroot=None, arg=0, broken=(), farg=0, earg=0):
+            # `arg` goes into the command line, `farg` only into the CONTENT of an input file, `earg` only into the VALUE of an environment variable
             return JobInput(M.name, commands=_cmds(self.executable if _key(M) not in broken else "/nonexistent/vf-missing-exe", _key(M), planroot, arg),
-                            files={"m.xyz": M.dumps_xyz().encode()}, return_files=self.return_files)
+                            files={"m.xyz": M.dumps_xyz().encode(), "param.txt": str(farg).encode()}, return_files=self.return_files, envars={"VF_EARG": str(earg)})
 
         @calc.post
-        def calc(self, out, M, planroot=None, arg=0, broken=()):
+        def calc(self, out, M, planroot=None, arg=0, broken=(), farg=0, earg=0):
             txt = out.files["result.txt"].decode().strip()
             if isinstance(M, ml.chem.ensemble.Conformer):
                 return txt
@@ -97,12 +99,13 @@ def make_driver():
 
         # post-processor that only reads stdout (never notices by itself that the run failed)
         @Job(return_files=("result.txt",)).prep
-        def lenient(self, M, planroot=None, arg=0, broken=()):
+        def lenient(self, M, planroot=None, arg=0, broken=(), farg=0, earg=0):
+            # `arg` goes into the command line, `farg` only into the CONTENT of an input file, `earg` only into the VALUE of an environment variable
             return JobInput(M.name, commands=_cmds(self.executable if _key(M) not in broken else "/nonexistent/vf-missing-exe", _key(M), planroot, arg),
-                            files={"m.xyz": M.dumps_xyz().encode()}, return_files=self.return_files)
+                            files={"m.xyz": M.dumps_xyz().encode(), "param.txt": str(farg).encode()}, return_files=self.return_files, envars={"VF_EARG": str(earg)})
 
         @lenient.post
-        def lenient(self, out, M, planroot=None, arg=0, broken=()):
+        def lenient(self, out, M, planroot=None, arg=0, broken=(), farg=0, earg=0):
             txt = "R" + out.stdouts["calc"].strip()[1:]
             if isinstance(M, ml.chem.ensemble.Conformer):
                 return txt
@@ -200,6 +203,7 @@ def check(r) -> list[Fail]:
         n_exec_total = 0
         for ri, run in enumerate(r["runs"]):
             arg = run["arg"]
+            farg, earg = run.get("farg", 0), run.get("earg", 0)
             # ---- cache events before the run
             outdir = os.path.join(cache_dir, "output")
             for ev in run["cache_events"]:
@@ -232,7 +236,7 @@ def check(r) -> list[Fail]:
             try:
                 with warnings.catch_warnings():
                     warnings.simplefilter("ignore")
-                    jobmap(job, src, dst, cache_dir=cache_dir, scratch_dir=scratch, n_workers=4, kwargs={"planroot": planroot, "arg": arg, "broken": tuple(broken)}, progress=False, log_level="critical")
+                    jobmap(job, src, dst, cache_dir=cache_dir, scratch_dir=scratch, n_workers=4, kwargs={"planroot": planroot, "arg": arg, "broken": tuple(broken), "farg": farg, "earg": earg}, progress=False, log_level="critical")
             except Exception as e:
                 s = exc_sig(e)
                 if s is None:
@@ -248,7 +252,7 @@ def check(r) -> list[Fail]:
                 texts, ok_all = [], True
                 for u in units[k]:
                     c = cache.get(u)
-                    hkey = (arg, u in broken)      # the command line (hence the hash) differs when the executable is replaced
+                    hkey = (arg, farg, earg, u in broken)      # everything the input consists of: command line, file contents, environment values
                     if c is not None and c[0] == hkey and c[1]:
                         texts.append(c[2])
                         continue
@@ -259,7 +263,7 @@ def check(r) -> list[Fail]:
                     n = count[u] + 1
                     exp_exec[u] = 1
                     ok = outcome(plan[u], n)
-                    txt = f"R {u} {arg} {n}"
+                    txt = f"R {u} {arg}/{farg}/{earg} {n}"
                     cache[u] = (hkey, ok, txt)
                     count[u] = n
                     if ok:
@@ -312,12 +316,16 @@ def check(r) -> list[Fail]:
 def classify(r):
     plans = [p for it in r["items"] for p in it["plans"]]
     fails_somewhere = any(p != "ok" for p in plans)
-    arg_change = len({run["arg"] for run in r["runs"]}) > 1
+    arg_change = len({(run["arg"], run.get("farg", 0), run.get("earg", 0)) for run in r["runs"]}) > 1
     lab = ["vectorised" if r["vec"] else "single", "lenient_post" if r["lenient"] else "strict_post", f"runs={len(r['runs'])}"]
     if fails_somewhere:
         lab.append("rerun_after_failure")
     if arg_change:
         lab.append("argument_change")
+    if len({run.get("farg", 0) for run in r["runs"]}) > 1:
+        lab.append("only_file_content_changes_somewhere")
+    if len({run.get("earg", 0) for run in r["runs"]}) > 1:
+        lab.append("only_env_value_changes_somewhere")
     if r["n_foreign"]:
         lab.append("foreign_destination_keys")
     if r["pre_source_keys"]:
@@ -337,7 +345,7 @@ def strat(tier):
     planv = st.sampled_from(["ok", "ok", "fail", "okat2", "okat3", "nofile", "prepfail", "prepfail1"])
     item = st.fixed_dictionaries({"nconf": st.integers(1, 3), "plans": st.lists(planv, min_size=1, max_size=3)})
     ev = st.one_of(st.tuples(st.just("delete"), st.integers(0, 20)).map(list), st.tuples(st.just("pollute"), st.integers(0, 20), st.integers(0, 20)).map(list))
-    run = st.fixed_dictionaries({"arg": st.sampled_from([0, 0, 0, 1, 2]), "cache_events": st.lists(ev, max_size=2), "new_dest": st.sampled_from([False, False, True]),
+    run = st.fixed_dictionaries({"arg": st.sampled_from([0, 0, 0, 1, 2]), "farg": st.sampled_from([0, 0, 0, 1]), "earg": st.sampled_from([0, 0, 0, 1]), "cache_events": st.lists(ev, max_size=2), "new_dest": st.sampled_from([False, False, True]),
                                  "broken": st.one_of(st.just([]), st.just([]), st.lists(st.integers(0, 20), min_size=1, max_size=2))})
     return st.fixed_dictionaries({
         "vec": st.booleans(), "lenient": st.booleans(),
@@ -349,7 +357,7 @@ def strat(tier):
 
 LEGS = [
     Leg("hist", check, classify, strategy=strat, n={"quick": 32, "thorough": 600}, shards={"quick": 16, "thorough": 16}, timeout={"quick": 900, "thorough": 14000},
-        rule="generated histories: 2-4/5 items (single molecules or ensembles of 1-3 conformers) with per-unit plans {ok, fail, ok at 2nd/3rd attempt, omit return file, first (unnamed) command fails always / once}, 2-3/4 jobmap runs with arguments from {0,1,2} (hash changes), "
+        rule="generated histories: 2-4/5 items (single molecules or ensembles of 1-3 conformers) with per-unit plans {ok, fail, ok at 2nd/3rd attempt, omit return file, first (unnamed) command fails always / once}, 2-3/4 jobmap runs whose arguments change the command line, only the content of an input file, or only the value of an environment variable (all must change the hash), "
              "0-2 pre-populated source keys, 0-2 foreign destination keys, cache events (delete one output, copy another input's output into a slot) between runs, optionally a fresh empty destination with the old cache directory, runs in which the program of some unit cannot be started (the runner dies before writing an output), strict (needs return file) and lenient (stdout only) post-processors, "
              "single and vectorised jobs; every job is a real _molli_run launch; evaluations = jobmap runs; non-trivial = a rerun after a failure, or an argument change with a populated cache"),
 ]
